@@ -99,6 +99,11 @@ class Parser:
         """Create a syntax error at current position."""
         return JSSyntaxError(message, self.current.line, self.current.column)
 
+    def _check_reference_target(self, node: Node) -> None:
+        """Assignment, update and for-in/of targets must be a variable or property reference."""
+        if not isinstance(node, (Identifier, MemberExpression)):
+            raise self._error("Invalid assignment target")
+
     def _loc(self, node: Node, token: Optional[Token] = None) -> Node:
         """Set source location on a node and return it."""
         t = token or self.previous or self.current
@@ -460,6 +465,8 @@ class Parser:
             # Expression init (could also be for-in/for-of with identifier or member expression)
             # Parse with exclude_in=True so 'in' isn't treated as binary operator
             expr = self._parse_expression(exclude_in=True)
+            if self._check(TokenType.IN, TokenType.OF):
+                self._check_reference_target(expr)
             if self._match(TokenType.IN):
                 # for (x in obj) or for (a.x in obj)
                 right = self._parse_expression()
@@ -653,6 +660,7 @@ class Parser:
             TokenType.RSHIFT_ASSIGN,
             TokenType.URSHIFT_ASSIGN,
         ):
+            self._check_reference_target(expr)
             op = self._advance().value
             right = self._parse_assignment_expression(exclude_in)
             return AssignmentExpression(op, expr, right)
@@ -806,6 +814,7 @@ class Parser:
             TokenType.RSHIFT_ASSIGN,
             TokenType.URSHIFT_ASSIGN,
         ):
+            self._check_reference_target(left)
             op = self._advance().value
             right = self._parse_assignment_expression(exclude_in)
             left = AssignmentExpression(op, left, right)
@@ -958,6 +967,7 @@ class Parser:
         if self._check(TokenType.PLUSPLUS, TokenType.MINUSMINUS):
             op_token = self._advance()
             argument = self._parse_unary_expression()
+            self._check_reference_target(argument)
             return UpdateExpression(op_token.value, argument, prefix=True)
 
         return self._parse_postfix_expression()
@@ -993,6 +1003,7 @@ class Parser:
                 expr = CallExpression(expr, args)
             elif self._check(TokenType.PLUSPLUS, TokenType.MINUSMINUS):
                 # Postfix increment/decrement
+                self._check_reference_target(expr)
                 op = self._advance().value
                 expr = UpdateExpression(op, expr, prefix=False)
             else:
